@@ -80,6 +80,11 @@ def run_ohe(rec, sh, tier):
                 # with a 1-letter alphabet an all-zero column still decodes to N through allow_N
                 rec.violation("characters:wrong_value_allow_N", case, expected=sN, observed=back)
                 continue
+            # the same encoding in its batch-of-one form (1, alphabet, length) - also when the length or the alphabet size is 1
+            st, back3 = call(characters, x[None], alphabet=alist, allow_N=True)
+            if st != "ok" or back3 != sN:
+                rec.violation("characters:wrong_value_batch_of_one", case, expected=sN, observed=back3)
+                continue
             if all(ch in al for ch in s):
                 st, back2 = call(characters, x, alphabet=alist)
                 if st != "ok" or back2 != s:
@@ -203,10 +208,19 @@ def run_chunk(rec, sh, tier):
                 if tuple(ch.shape) != tuple(expc.shape) or not torch.equal(ch, expc):
                     rec.violation("chunk:wrong_value", case, expected=list(expc.shape), observed=list(ch.shape))
                     continue
+                # the lengths as a list, and as ONE tensor object used for two consecutive calls (it must come back unchanged)
+                lt = torch.tensor(list(lengths), dtype=torch.int64)
+                st_t, un_t = call(unchunk, ch, lengths=lt, overlap=overlap)
+                st_t2, un_t2 = call(unchunk, ch, lengths=lt, overlap=overlap)
                 st, un = call(unchunk, ch, lengths=list(lengths), overlap=overlap)
                 if st != "ok":
                     rec.violation("unchunk:raises", case, observed=un)
                     continue
+                if lt.tolist() != list(lengths):
+                    rec.violation("unchunk:lengths_argument_modified", case, expected=list(lengths), observed=lt.tolist())
+                elif st_t != "ok" or st_t2 != "ok" or len(un_t) != len(un) or len(un_t2) != len(un) or \
+                        any(not torch.equal(a_, b_) for a_, b_ in zip(un_t, un)) or any(not torch.equal(a_, b_) for a_, b_ in zip(un_t2, un)):
+                    rec.violation("unchunk:tensor_lengths_differ_from_list_lengths", case, observed=un_t if st_t != "ok" else (un_t2 if st_t2 != "ok" else None))
                 if len(un) != len(X):
                     rec.violation("unchunk:wrong_count", case, expected=len(X), observed=len(un))
                     continue
